@@ -219,3 +219,26 @@ Proof.
   - intros H. unfold check_sum in H. apply Qeq_bool_iff in H. rewrite H. apply obs_prob_r_eq.
   - intros H. eapply veq_trans; [apply veqb_sound; exact H| apply predict_r_veq].
 Qed.
+
+(* ------------------------------------------------------------------ boundary case: uninformative observation *)
+(* if the observation column is constant (O(s',a,o) = c > 0 for every s'), observing o carries no
+   information: P(o|b,a) = c and the posterior is the prediction b*T_a *)
+Lemma uninformative_lemma : forall m b a o c p,
+  wf_pomdp m -> simplex (nS (pm m)) b -> (a < nA (pm m))%nat -> (o < nO m)%nat ->
+  (forall s', (s' < nS (pm m))%nat -> Op m s' a o == c) -> 0 < c ->
+  is_posterior m b a o p ->
+  obs_prob m b a o == c /\ veq p (predict m b a).
+Proof.
+  intros m b a o c p W [Hb [Hn Hsum]] Ha Ho Hc Hpos [Hl [_ [_ Hprop]]].
+  assert (HP : obs_prob m b a o == c).
+  { unfold obs_prob, bayes_unnorm.
+    rewrite (qsum_map_ext nat (fun s' => Op m s' a o * pred_at m b a s') (fun s' => c * pred_at m b a s')).
+    - rewrite (qsum_map_scale_l nat (pred_at m b a) c (states m)). fold (predict m b a).
+      rewrite (predict_sum m b a W Ha Hb), Hsum. lra.
+    - intros s' Hin. apply in_seq in Hin. rewrite Hc by lia. reflexivity. }
+  split; [exact HP|].
+  apply veq_nth; [rewrite Hl; unfold predict, states; rewrite map_length, seq_length; reflexivity|].
+  intros i Hi. rewrite Hl in Hi. unfold predict, states. rewrite nthq_map_seq by exact Hi.
+  specialize (Hprop i Hi). rewrite HP in Hprop. unfold bayes_unnorm in Hprop. rewrite (Hc i Hi) in Hprop.
+  apply (Qmult_inj_r _ _ c); [lra|]. rewrite Hprop. ring.
+Qed.
